@@ -85,6 +85,8 @@ func (vc *FnVC) newAllocFacts(a string) {
 	vc.fact(fmt.Sprintf("(> %s 0)", a))
 	vc.decl("allocated0", "(declare-fun allocated0 (Int) Bool)")
 	vc.fact(fmt.Sprintf("(not (allocated0 %s))", a))
+	// nil counts as pre-existing: sub-objects of a nil pointer never coincide with new objects
+	vc.decl("allocated0$nil", "(assert (allocated0 0))")
 	for _, o := range vc.allocRefs {
 		vc.fact(fmt.Sprintf("(not (= %s %s))", a, o))
 	}
@@ -226,8 +228,15 @@ func (vc *FnVC) instr(in ssa.Instruction, idx int) {
 			vc.zeroObjectElems(arr, el)
 		}
 		vc.define(in, fmt.Sprintf("(mkSlice %s 0 %s %s)", arr, ln.S, cp.S))
-	case *ssa.MakeMap, *ssa.MakeChan:
-		t := vc.defineFresh(in.(ssa.Value))
+	case *ssa.MakeMap:
+		// a new, empty map: fresh handle, no key present
+		mt := in.Type().Underlying().(*types.Map)
+		m := vc.newAllocRef("map$" + mangle(in.Name()))
+		vc.vals[in] = Term{S: m, Sort: "Int", T: in.Type()}
+		_, _, hC, hS := vc.mapComps(mt.Key(), mt.Elem())
+		vc.heapSet(hC, hS, fmt.Sprintf("(store %s %s ((as const (Array %s Bool)) false))", vc.heapGet(hC, hS), m, vc.sortOf(mt.Key())))
+	case *ssa.MakeChan:
+		t := vc.defineFresh(in)
 		vc.fact(fmt.Sprintf("(> %s 0)", t.S))
 	case *ssa.MakeClosure:
 		t := vc.defineFresh(in)
@@ -935,7 +944,12 @@ func (vc *FnVC) mapComps(kt, vt types.Type) (valC, valS, hasC, hasS string) {
 	ks := vc.sortOf(kt)
 	vs := vc.sortOf(vt)
 	base := "M$" + shortTypeName(kt) + "$" + shortTypeName(vt)
-	return base + "$val", fmt.Sprintf("(Array Int (Array %s %s))", ks, vs), base + "$has", fmt.Sprintf("(Array Int (Array %s Bool))", ks)
+	valS, hasS = fmt.Sprintf("(Array Int (Array %s %s))", ks, vs), fmt.Sprintf("(Array Int (Array %s Bool))", ks)
+	if _, ok := vc.compSort[base+"$val"]; !ok {
+		vc.compSort[base+"$val"] = valS
+		vc.compSort[base+"$has"] = hasS
+	}
+	return base + "$val", valS, base + "$has", hasS
 }
 
 func (vc *FnVC) mapRead(m string, k Term, vt types.Type) (val, has string) {
